@@ -4,6 +4,7 @@ import (
 	"fmt"
 	"sort"
 	"strings"
+	"sync"
 	"time"
 
 	"verifh/fs3"
@@ -14,16 +15,17 @@ func init() {
 	register(&Check{
 		ID:    "C14",
 		Level: "fault_enumeration",
-		Rule: "each case prepares a bucket (1-3 writers, 10-120 rows, entries_per_node 2,3,4,4096, 1-4 unmerged versions) and picks one target statement: read-write or read-only open (merge-on-open), full scan, range scan, point lookup, count, autocommit INSERT/UPDATE/DELETE, multi-statement COMMIT, s3db_refresh, s3db_changes query, s3db_vacuum. " +
+		Rule: "each case prepares a bucket (1-3 writers, 10-120 rows, entries_per_node 2,3,4,4096, 1-4 unmerged versions) and picks one target statement: read-write or read-only open (merge-on-open), full scan, range scan, point lookup, count, autocommit INSERT/UPDATE/DELETE, multi-statement COMMIT, s3db_refresh, s3db_changes query, s3db_vacuum; and raced forms of open and refresh in which, between the subject's LIST and its first read of a version, another connection merges and commits, so that every listed version has been retired and is read from its second location (root/merged/). " +
+			"A failed write is, in half of the cases, simply tried again on the same connection and must then be complete in the bucket. Injected errors rotate through three forms: connection reset (no status), a 503 from the service, and a GET whose body ends half-way with io.ErrUnexpectedEOF. " +
 			"A fault-free reference run records the target's result and its R storage requests; then for EVERY request position p<=R (60 seeded positions when R>60) the pre-state is restored and the target re-runs with (a) one failing request, (b) requests failing persistently from p until cleared, and for 3 seeded positions (c) the request blocking until the connection's deadline (1-2 s ahead) expires. " +
 			"Each run must end in an error or in exactly the reference result; a write reported successful must be visible to a fresh open once the fault is cleared; the worker process must stay alive and the statement must return (a statement that has not returned 30 s after its last storage request, or that issued more than 50x the reference request count, is a violation); afterwards the same connection (after s3db_refresh) and a new one must show all committed data and accept a write. " +
 			"non-trivial = R>=4 and at least one faulted run returned an error and one completed; distinct = hash of (target, bucket shape, R)",
 		Flavours: []string{"plain"},
 		Cases: func(tier string) int {
 			if tier == "thorough" {
-				return 800
+				return 950
 			}
-			return 64
+			return 76
 		},
 		MinNT: func(tier string) int {
 			if tier == "thorough" {
@@ -42,7 +44,23 @@ func init() {
 	})
 }
 
-var c14Targets = []string{"open-rw", "open-ro", "scan", "range", "point", "count", "insert", "update", "delete", "commit", "refresh", "changes", "vacuum", "open-rw", "insert-twin", "range"}
+var c14Targets = []string{"open-rw", "open-ro", "scan", "range", "point", "count", "insert", "update", "delete", "commit", "refresh", "changes", "vacuum", "open-rw", "insert-twin", "range",
+	"open-ro-raced", "open-rw-raced", "refresh-raced"}
+
+// onceGate runs f at the subject's first GET of a current version: between
+// its LIST and its reads another connection merges and commits, so that every
+// listed version has been retired and is read from its second location.
+type onceGate struct {
+	once sync.Once
+	f    func()
+}
+
+func (g *onceGate) Wait(_ *fs3.Client, op, key string) {
+	if op == fs3.OpGet && strings.Contains(key, "/root/current/") {
+		g.once.Do(g.f)
+	}
+}
+func (g *onceGate) Done(*fs3.Client, string, string) {}
 
 type c14outcome struct {
 	err  error
@@ -53,6 +71,8 @@ type c14outcome struct {
 func runC14(c *Case) {
 	r := c.R
 	target := c14Targets[c.Index%len(c14Targets)]
+	kind := strings.TrimSuffix(target, "-raced")
+	raced := kind != target
 	epn := []int{2, 3, 4, 4096}[r.Intn(4)]
 	prefix := "p"
 	base := walk.Base(prefix)
@@ -61,7 +81,7 @@ func runC14(c *Case) {
 	defer dropStore(st)
 	nrows := r.Range(10, 120)
 	nwriters := 1
-	isOpen := strings.HasPrefix(target, "open") || target == "refresh"
+	isOpen := strings.HasPrefix(target, "open") || kind == "refresh"
 	if isOpen {
 		nwriters = r.Range(2, 4)
 	}
@@ -135,6 +155,8 @@ func runC14(c *Case) {
 		conn *Conn
 		t    string
 		spec TableSpec
+		// racerErr: what the racing connection of a -raced target got
+		racerErr error
 	}
 	newSubject := func() (*subject, error) {
 		s := &subject{st: newStore()}
@@ -144,12 +166,26 @@ func runC14(c *Case) {
 		setPerm(ep, func(roots []string) []string { o := append([]string(nil), roots...); sort.Strings(o); return o })
 		s.conn = OpenConn("subj")
 		s.t = tname(c, "subj")
-		s.spec = TableSpec{Name: s.t, Cols: cols, Store: s.st.Name, Client: "subj", Prefix: prefix, EPN: epn, ReadOnly: target == "open-ro"}
+		s.spec = TableSpec{Name: s.t, Cols: cols, Store: s.st.Name, Client: "subj", Prefix: prefix, EPN: epn, ReadOnly: kind == "open-ro"}
 		if !strings.HasPrefix(target, "open") {
 			if err := s.conn.Create(s.spec); err != nil {
 				return s, err
 			}
 			s.conn.SetWriteTime(500)
+		}
+		if raced {
+			s.cl.SetGate(&onceGate{f: func() {
+				cn := OpenConn("racer")
+				defer cn.Close()
+				t := tname(c, "racer")
+				if err := cn.Create(TableSpec{Name: t, Cols: cols, Store: s.st.Name, Client: "racer", Prefix: prefix, EPN: epn}); err != nil {
+					s.racerErr = err
+					return
+				}
+				cn.SetWriteTime(450)
+				s.racerErr = cn.Exec("insert into "+t+" values (?,?,?)", int64(-7), "racer", nil)
+				c.Count("raced_retirements", 1)
+			}})
 		}
 		return s, nil
 	}
@@ -163,7 +199,7 @@ func runC14(c *Case) {
 		done := make(chan c14outcome, 1)
 		go func() {
 			var o c14outcome
-			switch target {
+			switch kind {
 			case "open-rw", "open-ro":
 				o.err = s.conn.Create(s.spec)
 			case "scan":
@@ -248,7 +284,7 @@ func runC14(c *Case) {
 			}
 		}
 	}
-	isWrite := map[string]bool{"insert": true, "update": true, "delete": true, "commit": true, "vacuum": true}[target]
+	isWrite := map[string]bool{"insert": true, "update": true, "delete": true, "commit": true, "vacuum": true}[kind]
 	if target == "changes" && v0 == "" {
 		target = "scan"
 		desc["target"] = target
@@ -276,6 +312,11 @@ func runC14(c *Case) {
 	if ro.err != nil || ro.hung {
 		closeSubject(ref)
 		fail("reference-run-failed", fmt.Sprintf("the target failed without any fault: %v", ro.err))
+		return
+	}
+	if ref.racerErr != nil {
+		closeSubject(ref)
+		fail("reference-setup", "the racing connection failed: "+ref.racerErr.Error())
 		return
 	}
 	refRows := ro.rows
@@ -397,7 +438,7 @@ func runC14(c *Case) {
 			}
 			// same connection, no refresh: a statement that failed must have left no trace in the
 			// connection's own view (reads: the committed contents; writes: old or new, never a mixture)
-			if c.Res.Status != "violated" && !strings.HasPrefix(target, "open") && target != "refresh" && target != "vacuum" && r.Intn(3) == 0 {
+			if c.Res.Status != "violated" && !strings.HasPrefix(target, "open") && kind != "refresh" && target != "vacuum" && r.Intn(3) == 0 {
 				d, err := s.conn.Rows("select * from " + s.t)
 				if err == nil {
 					own := firstDiff(preDump, d) == ""
@@ -415,8 +456,38 @@ func runC14(c *Case) {
 					}
 				}
 			}
+			// the statement that failed is simply tried again on the same connection (same write time, so
+			// the nodes it builds have the names of those whose upload failed): it must now go through,
+			// and what it publishes must be complete
+			if c.Res.Status != "violated" && isWrite && kind != "vacuum" && o.err != nil && isPre && r.Intn(2) == 0 {
+				s.conn.Exec("rollback")
+				o2 := runTarget(s)
+				c.Count("retries_of_failed_writes", 1)
+				if o2.hung {
+					fail("hang:retry:"+m.name, where+": the retried statement has not returned 30 s after its last storage request")
+					return
+				}
+				if o2.err != nil {
+					fail("retry-fails:"+m.name, fmt.Sprintf("%s: after the fault cleared the same statement fails again on the same connection: %v", where, o2.err))
+				} else if fd2, err := postDump(s, "afterretry"); err != nil {
+					fail("retry-commit-unreadable:"+m.name, fmt.Sprintf("%s: after the retried statement succeeded a new connection cannot read the table: %v", where, err))
+				} else if d := firstDiff(refPost, fd2); d != "" {
+					fail("retry-commit-lost:"+m.name, fmt.Sprintf("%s: the retried statement reported success but a fresh open does not show its effect (expected vs fresh): %s", where, d))
+				} else {
+					snapF := s.st.Snapshot()
+					own, _ := s.conn.Scalar("select s3db_version('" + s.t + "')")
+					for _, n := range parseVersionList(own) {
+						if v := walk.Walk(snapF, base, n); len(v.Problems) > 0 {
+							fail("retry-commit-incomplete:"+m.name, fmt.Sprintf("%s: the version published by the retried statement is incomplete: %s", where, v.Problems[0]))
+							break
+						}
+					}
+				}
+				closeSubject(s)
+				continue
+			}
 			// same connection, still no refresh: it goes on writing; what it publishes must be complete
-			if c.Res.Status != "violated" && !strings.HasPrefix(target, "open") && target != "refresh" && r.Intn(3) == 0 {
+			if c.Res.Status != "violated" && !strings.HasPrefix(target, "open") && kind != "refresh" && r.Intn(3) == 0 {
 				s.conn.SetWriteTime(700)
 				e1 := s.conn.Exec("insert into "+s.t+" values (?,?,?)", int64(4000001), "follow-up", nil)
 				s.conn.SetWriteTime(701)
@@ -483,7 +554,7 @@ func runC14(c *Case) {
 						fail("same-connection-read:"+m.name, where+": the same connection cannot read after refresh: "+err.Error())
 					} else if firstDiff(fd, d) != "" {
 						fail("same-connection-differs:"+m.name, where+": the same connection after refresh differs from a fresh open: "+firstDiff(fd, d))
-					} else if target != "open-ro" {
+					} else if kind != "open-ro" {
 						s.conn.SetWriteTime(900)
 						if err := s.conn.Exec("insert into "+s.t+" values (?,?,?)", int64(3000001), "after-fault", nil); err != nil {
 							fail("same-connection-write:"+m.name, where+": the same connection cannot write after the fault cleared: "+err.Error())
